@@ -6,7 +6,17 @@ export GOFLAGS=-mod=mod GOPROXY=off GOSUMDB=off GOTOOLCHAIN=local
 M=$(mktemp -d /tmp/mut-XXXXXX)
 trap 'rm -rf "$M"' EXIT
 rsync -a --exclude .git /repo/ "$M/repo/"
-if [ "$1" = "-e" ]; then sed -i "$2" "$M/repo/$3"; shift 3; else (cd "$M/repo" && patch -p1 -s < "$1") || exit 3; shift; fi
+if [ "$1" = "-e" ]; then sed -i "$2" "$M/repo/$3"; shift 3;
+elif [ "$1" = "-r" ]; then python3 - "$M/repo/$2" "$3" "$4" <<'PY' || exit 3
+import sys
+p,old,new=sys.argv[1:4]
+s=open(p).read()
+old=old.encode().decode('unicode_escape'); new=new.encode().decode('unicode_escape')
+assert s.count(old)>=1, "pattern not found"
+open(p,'w').write(s.replace(old,new,1))
+PY
+shift 4;
+else (cd "$M/repo" && patch -p1 -s < "$1") || exit 3; shift; fi
 [ "$1" = "--" ] && shift
 (cd "$M/repo" && diff -r -q /repo "$M/repo" -x .git | head -5)
 if ! (cd "$M/repo" && go build ./... ); then echo "MUTANT DOES NOT BUILD"; exit 3; fi
